@@ -391,6 +391,10 @@ def m_is_err(I, st, a):
 
 def m_branch(I, st, a):
     v = a[0]
+    if isinstance(v, SOpaque):
+        # the value of an unmodelled callee: either outcome
+        return [(z3.BoolVal(True), SEnum("ControlFlow", 0, {0: {0: SOpaque(v.label + "?ok", v.taint)}})),
+                (z3.BoolVal(True), SEnum("ControlFlow", 1, {1: {0: SOpaque(v.label + "?residual", v.taint)}}))]
     if v.ty == "Result":
         pay = {}
         if 0 in v.pay:
